@@ -203,6 +203,12 @@ def part_a_session(sh: Shard, seed, nsnap):
     root = logging.getLogger()
     before_handlers, before_level = list(root.handlers), root.level
     logging.disable(logging.NOTSET)
+    # (one shard of every check runs with the geckolib logger cut off from the root logger - see
+    # vlib/shard.py; the shell's logfile handler sits on the root logger)
+    glog = logging.getLogger("geckolib")
+    g_prop, g_level = glog.propagate, glog.level
+    glog.propagate = True
+    glog.setLevel(logging.NOTSET)
     written = []
     try:
         shell.do_logfile(path)
@@ -235,7 +241,9 @@ def part_a_session(sh: Shard, seed, nsnap):
                 root.removeHandler(h)
                 h.close()
         root.setLevel(before_level)
-        logging.disable(logging.CRITICAL)
+        glog.propagate, _ = g_prop, glog.setLevel(g_level)
+        if os.environ.get("VERIF_SHARD_LOGGING") != "debug":
+            logging.disable(logging.CRITICAL)
     sh.evaluations += 1
     size = sum(os.path.getsize(os.path.join(d, f_)) for f_ in os.listdir(d))
     sh.maximum("largest_shell_session_log_bytes", size)
